@@ -583,21 +583,30 @@ def resample(sig, old=1, new=1, order=3, zero=0.):
   threshold = .5 * (order + 1)
   step = old / new
   data = deque([zero] * (order + 1), maxlen=order + 1)
-  data.extend(sig.take(rint(threshold)))
+  first_data = sig.take(rint(threshold))
+  if len(first_data) < rint(threshold): # Input ended before the first output
+    return
+  data.extend(first_data)
   idx = int(threshold)
   isig = iter(sig)
   if isinstance(step, Iterable):
     step = iter(step)
     while True:
       yield lagrange(enumerate(data))(idx)
-      idx += next(step)
-      while idx > threshold:
-        data.append(next(isig))
-        idx -= 1
+      try:
+        idx += next(step)
+        while idx > threshold:
+          data.append(next(isig))
+          idx -= 1
+      except StopIteration: # Finishes with the input or the step (PEP 479)
+        return
   else:
     while True:
       yield lagrange(enumerate(data))(idx)
       idx += step
-      while idx > threshold:
-        data.append(next(isig))
-        idx -= 1
+      try:
+        while idx > threshold:
+          data.append(next(isig))
+          idx -= 1
+      except StopIteration: # Finishes with the input (PEP 479)
+        return
